@@ -160,6 +160,7 @@ def run(ctx):
         ctx.coverage["accepted_by_checker"] = stats["accepted"]
         ctx.coverage["checker_verdict_by_family"] = {k[6:]: v for k, v in hist.items() if k.startswith("check:")}
         ctx.coverage["template_families"] = {k[7:]: v for k, v in hist.items() if k.startswith("family:")}
+        ctx.coverage["inconclusive_runs"] = {k[13:]: v for k, v in hist.items() if k.startswith("inconclusive:")}
         ctx.coverage["shape_checks_by_extracted_check_raw"] = stats["shape_lines"]
         ctx.coverage["types_with_opaque_parts"] = stats["types_with_opaque_parts"]
         ctx.coverage["constructed_rejected_by_checker"] = len(stats.get("constructed_rejected_by_checker", []))
